@@ -142,6 +142,7 @@ main:
 	if err != nil {
 		return errors.Wrapf(err, "Could not open connection")
 	} else if mustSecure && !cc.Secure() {
+		streams.TryClose(cc)
 		return errors.Errorf("Could not establish a secure connection to %v", ups.Address)
 	}
 
